@@ -253,8 +253,21 @@ class Ctx:
             log("[%s] harness exited %d on %s; stderr tail:\n%s" % (self.pid, p.returncode, name, p.stderr[-1500:]))
             if not isolate:
                 log("[%s] re-running %s isolated (one process per scenario)" % (self.pid, name))
-                return self.run_scenarios(scs, name=name + "-iso", par=par, isolate=True, timeout=timeout,
-                                          child_timeout=child_timeout)
+                out = self.run_scenarios(scs, name=name + "-iso", par=par, isolate=True, timeout=timeout,
+                                         child_timeout=child_timeout)
+                # the crash is real-code behaviour: if no isolated child dies the same way it is not attributable to a scenario and
+                # the run must not be reported as "held" (finish() turns it into exit 2 unless a violation explains it)
+                died = False
+                with open(out) as f:
+                    for line in f:
+                        if '"ev":"Exit"' in line.replace(" ", "") and '"status":0' not in line.replace(" ", ""):
+                            died = True
+                            break
+                if not died and "github.com/aptpod/iscp-go/" in p.stderr:
+                    head = [l for l in p.stderr.splitlines() if l.startswith(("fatal error", "panic:"))]
+                    self.unreproduced_crash = (head[0] if head else "crash") + " | " + " <- ".join(
+                        l.split("(")[0].strip() for l in p.stderr.splitlines() if l.startswith("github.com/aptpod/iscp-go/"))[:400]
+                return out
             raise Inconclusive("harness failed on %s" % name)
         self.cov["scenarios_run"] += len(scs)
         log("[%s] ran %d scenarios (%s) in %.1fs: %s" % (self.pid, len(scs), name, time.time() - t, p.stdout.strip()))
@@ -392,6 +405,8 @@ class Ctx:
         cov["evaluations"] = max(cov.get("evaluations", 0), cov["scenarios_run"])
         cov.setdefault("distinct_nontrivial", cov["traces_validated_against_impl"])
         cov["known_findings_hit"] = sorted({"%s: %s" % (k["key"], k["what"]) for k, _, _ in self.known_hits})
+        if getattr(self, "unreproduced_crash", None):
+            self.notes.append("library crash in the shared harness process, not reproduced in isolation: " + self.unreproduced_crash)
         cov["notes"] = self.notes[:20]
         if not cov["samples"]:
             cov["samples"] = [{"note": "no scenario sample recorded"}]
@@ -415,6 +430,9 @@ class Ctx:
             cov["traces_validated_against_impl"], cov["scenarios_inconclusive"], len(self.violations), wall))
         if self.violations:
             sys.exit(1)
+        if getattr(self, "unreproduced_crash", None):
+            log("[%s] INCONCLUSIVE: the library crashed the harness process and no isolated scenario reproduced it: %s" % (self.pid, self.unreproduced_crash))
+            sys.exit(2)
         run = cov["scenarios_run"]
         if run and cov["scenarios_inconclusive"] > max(2, run // 3):
             log("[%s] INCONCLUSIVE: %d of %d scenarios inconclusive" % (self.pid, cov["scenarios_inconclusive"], run))
